@@ -230,10 +230,10 @@ theorem hr1A_pollU {g : Cfg} {a : Rec} {s0 : ExitStatus} {pr : Bool} (ok : FR1OK
     omega
   have hfu := handlerFuel_ge' c.env r
   have hfuel : 2 * ((g.K5a.C.length - (accOf sub).length) / 64) + 2 * c.env.tr.input.length + 10 ≤
-      handlerFuel c.env r := by
+      (handlerFuel c.env r + scriptOf c) := by
     omega
   rcases hr1A_coreU hK (k5a_final g) ⟨rfl, rfl, rfl, rfl⟩ rfl ok.k0 ok.role (Ow := g.Ow1) rfl s0 pr
-      (handlerFuel c.env r) r sub c.env dO hfuel hb hs with
+      (handlerFuel c.env r + scriptOf c) r sub c.env dO hfuel hb hs with
     ⟨r', acc', e', dO', d1, d3, d5, d6, d8, d9, d10⟩ | ⟨r', acc', e', dO', d1, d3, d5, d6, d8, d9, d10⟩ | hd
   · have hstep := C07.handler_step c r _ hph
     rw [d1] at hstep
@@ -468,9 +468,9 @@ theorem hr1_pollU {g : Cfg} {mid : List Rec} {a : Rec} {s0 : ExitStatus} {pr : B
     omega
   have hfu := handlerFuel_ge' c.env r
   have hfuel : 2 * ((g.K.C.length - (accOf sub).length) / 64) + 2 * c.env.tr.input.length + 8 ≤
-      handlerFuel c.env r := by
+      (handlerFuel c.env r + scriptOf c) := by
     omega
-  rcases hr1_coreU ok (handlerFuel c.env r) r sub c.env dO hfuel hb hs with
+  rcases hr1_coreU ok (handlerFuel c.env r + scriptOf c) r sub c.env dO hfuel hb hs with
     ⟨r', acc', e', dO', d1, d3, d5, d6, d8, d9, d10⟩ | ⟨r', acc', e', dO', d1, d3, d5, d6, d8, d9, d10⟩ | hd
   · have hstep := C07.handler_step c r _ hph
     rw [d1] at hstep
